@@ -6,6 +6,7 @@ sys.path.insert(0, os.path.dirname(os.path.abspath(__file__)))
 
 S1 = ('zf_plain', 'C[C[..R[...]]O[S[..]C[..].]c[..]]')          # no utility regions: comparable across every feature set
 S2 = ('zf_utility', 'C[U[...]N[..]O[U[..].]R[..]]')             # utility regions: compared among builds with utility theory
+S3 = ('zf_plans', 'C[C[..R[...]]O[S[..]C[..].]c[..]]')          # the program also edits plans and reports success/failure: compared among builds with plans
 
 ALL = ['HFSM2_ENABLE_PLANS', 'HFSM2_ENABLE_SERIALIZATION', 'HFSM2_ENABLE_TRANSITION_HISTORY', 'HFSM2_ENABLE_STRUCTURE_REPORT', 'HFSM2_ENABLE_UTILITY_THEORY', 'HFSM2_ENABLE_DEBUG_STATE_TYPE']
 # a pairwise-style covering set over {plans, serialization, history, structure report, utility, log interface, verbose log, typeindex off,
@@ -31,12 +32,14 @@ def specs(flavours):
     out = []
     for act in ('m', 'a'):
         for name, defs in CONFIGS:
-            for mname, mspec in (S1, S2):
+            for mname, mspec in (S1, S2, S3):
                 if mname == 'zf_utility' and 'HFSM2_ENABLE_UTILITY_THEORY' not in defs:
+                    continue
+                if mname == 'zf_plans' and 'HFSM2_ENABLE_PLANS' not in defs:
                     continue
                 if act == 'a' and name not in ('none', 'all_verbose', 'all_payload_subst7', 'utility_serial_verbose'):
                     continue
-                d = list(defs) + ['HV_MACHINE_HEADER="%s.hpp"' % mname] + (['HVF_MANUAL'] if act == 'm' else [])
+                d = list(defs) + ['HV_MACHINE_HEADER="%s.hpp"' % mname] + (['HVF_MANUAL'] if act == 'm' else []) + (['HVF_USE_PLANS'] if mname == 'zf_plans' else [])
                 out.append(dict(name='feat_%s_%s_%s' % (mname, name, act), source='harness/hv_feat.cpp', defines=d, machine=(mname, mspec), sanitize=False, link=[], group=(mname, act)))
     return out
 
@@ -45,11 +48,11 @@ def gen_case(rng):
     n = rng.choice([1, 2, 3, 4, 6, 8, 12])
     b = bytearray()
     for _ in range(n):
-        kind = rng.choice([0, 0, 1, 2, 2, 3, 3, 3, 4, 5])
+        kind = rng.choice([0, 0, 0, 1, 2, 2, 3, 3, 3, 4, 5, 6, 6, 6, 7])   # 6/7: plan append / clear in the plan group, update / react elsewhere
         rec = bytearray([kind, rng.randrange(256), rng.randrange(256), rng.randrange(256), rng.randrange(256)])
         for _k in range(3):
             if rng.random() < 0.5:
-                rec += bytes([rng.randrange(256), (rng.choice([0, 0, 1, 1, 2, 3, 4, 5]) | (rng.choice([1, 2, 2, 3, 3, 6]) << 3)), rng.randrange(256)])
+                rec += bytes([rng.randrange(256), (rng.choice([0, 0, 1, 1, 2, 3, 4, 5]) | (rng.choice([1, 2, 2, 3, 3, 6, 4, 4]) << 3)), rng.randrange(256)])
             else:
                 rec += bytes([0, 0, 0])
         rec += bytes(16 - len(rec))
@@ -112,7 +115,7 @@ def run(tier, seed, repo, build, out, flavours, zoo, builder=None):
     for g, members in groups.items():
         ref = members[0]
         for i, row in enumerate(ref[3]):
-            if int(row[1]) == 3:
+            if (int(row[1]) & 3) == 3:
                 nontrivial.add((g[0], hashlib.sha1(cases[i]).hexdigest()))
         for m in members[1:]:
             compared += 1
@@ -132,7 +135,7 @@ def run(tier, seed, repo, build, out, flavours, zoo, builder=None):
         os.unlink(os.path.join(rundir, f))
     os.rmdir(rundir)
     cov = dict(evaluations=n * len(jobs), distinct_nontrivial=len(nontrivial),
-               rule='case = 1..12 op records (update, react, queued/immediate change/restart/resume/select/schedule, reset) with up to 3 scripted callbacks (guards cancel and/or substitute, update/react phases request, react consumes), '
+               rule='case = 1..12 op records (update, react, queued/immediate change/restart/resume/select/schedule, reset; in the plan group also plan append (cyclic / in-region / anywhere, change/restart/resume) and plan clear) with up to 3 scripted callbacks (guards cancel and/or substitute, update/react phases request, react consumes; in the plan group the update phases also succeed/fail), '
                     'generated from VERIF_SEED; every build in a group (same structure, same activation mode) executes the same corpus and prints a digest of all callbacks, pending counts seen by guards and isActive/isResumable of every state after every op; '
                     'digests must be equal. non-trivial = the configuration changed and a callback issued a request; distinct = distinct case bytes per structure.',
                samples=[c.hex() for c in cases[:3]], classes=dict(cases=n, binaries=len(jobs), pairs_compared=compared, groups=len(groups)),
